@@ -436,6 +436,32 @@ class Outcome:
     __slots__ = ("results", "status", "decisions", "alternatives", "verdict", "extra", "bg", "fg", "names")
 
 
+def patch_module_use(mod, real, shim, setter):
+    """Replace what module `mod` uses of the module `real` by the corresponding members of `shim`, wherever they are
+    in its namespace: `import threading` (the module object) and `from threading import Thread, Lock` (the members)
+    are the same to the harness.  setter(mod, name, new) performs (and remembers) one replacement.  Returns the
+    number of replacements."""
+    n = 0
+    members = {}
+    for k in dir(real):
+        if k.startswith("__"):
+            continue
+        try:
+            v, w = getattr(real, k), getattr(shim, k, None)
+        except Exception:      # noqa
+            continue
+        if w is not None and w is not v and callable(v):
+            members[id(v)] = (v, w)
+    for name, val in list(vars(mod).items()):
+        if val is real:
+            setter(mod, name, shim)
+            n += 1
+        elif id(val) in members and members[id(val)][0] is val:
+            setter(mod, name, members[id(val)][1])
+            n += 1
+    return n
+
+
 def with_fallback(funcs, groups):
     """groups: [(file, [names])].  The traced functions are given by NAME; when a refactoring has renamed one of
     them (no `def name(` in its file any more), every function of that file becomes a yield-point function instead
